@@ -62,10 +62,11 @@ ASSUMPTIONS = [
     "token texts longer than 32k bytes are not generated (the on-disk term length limit is another property's subject)",
 ]
 SHARDS = {"quick": 4, "thorough": 16}
-BUDGET_S = {"quick": 70, "thorough": 600}
-FLOORS = {"cases": 400, "docs": 1500, "a.term_checks": 8000, "b.and_checks": 1200, "b.parser_checks": 800,
-          "c.phrase_checks": 1500, "d.position_streams": 1500, "e.offset_checks": 8000, "f.highlights": 1500,
-          "f.marked_spans": 1500, "f.pinpoint": 60, "f.strict_phrase": 150, "f.lowlevel": 300}
+BUDGET_S = {"quick": 90, "thorough": 600}
+FLOORS = {"cases": 700, "docs": 3500, "a.term_checks": 20000, "b.and_checks": 3300, "b.parser_checks": 5500,
+          "c.phrase_checks": 5000, "d.position_streams": 3300, "e.offset_checks": 30000, "e.exact_by_reanalysis": 2500,
+          "f.highlights": 6500, "f.marked_spans": 11000, "f.pinpoint": 400, "f.strict_phrase": 700,
+          "f.strict_phrase_spans": 100, "f.lowlevel": 1000, "f.html_markup_checks": 2000}
 
 # ----------------------------------------------------------------------
 # texts
